@@ -433,6 +433,70 @@ class CrashRun:
                 self.v("C04.metadata-third-value", "%s: %s is %r, old=%r new=%r" % (where, key, val, allowed[0], allowed[1]), key=key, **sig)
         if backend != "vdir":
             self.git_checks(work, where, sig)
+        if vname is not None and not self.violations and (k + (1 if torn is not None else 0)) % 2 == 0:
+            self.probe(backend, victim, work, state, where, sig)
+
+    SHORT = {".ics": b"BEGIN:VCALENDAR\r\nVERSION:2.0\r\nPRODID:-//p//EN\r\nBEGIN:VEVENT\r\nUID:%s\r\nDTSTAMP:20200101T000000Z\r\nDTSTART:20200102T000000Z\r\nSUMMARY:p\r\nEND:VEVENT\r\nEND:VCALENDAR\r\n",
+             ".vcf": b"BEGIN:VCARD\r\nVERSION:3.0\r\nUID:%s\r\nFN:P\r\nN:P;;;;\r\nEND:VCARD\r\n"}
+
+    def probe(self, backend, victim, work, state, where, sig):
+        """The recovered state must also *behave* like the old or the new state: the client retries
+        the interrupted operation, then writes something shorter to the same name; whatever is
+        acknowledged must read back, and nothing else may move."""
+        vname = victim["name"]
+        self.count("recovery_probes")
+        FS.active = True
+        try:
+            st = open_store(backend, work)
+            try:
+                def members():
+                    return read_state(st, backend)["members"]
+
+                def same(a, b):
+                    return a == b or (vname.endswith(".ics") and icalparse.semantically_equal(a, b))
+
+                steps = []
+                if victim["kind"] in ("create", "replace"):
+                    steps.append(("retry", victim["body"].encode("latin-1"), victim["ctype"]))
+                elif victim["kind"] == "delete":
+                    steps.append(("retry-delete", None, None))
+                ext = vname[vname.rfind("."):] if "." in vname else ""
+                uid = (icalparse.first_uid(victim.get("body", "").encode("latin-1")) or "uid-probe") if ext == ".ics" else "card-probe"
+                if ext == ".ics" and victim["kind"] not in ("create", "replace"):
+                    cur = state["members"].get(vname)
+                    uid = (icalparse.first_uid(cur[1]) if cur else None) or "uid-probe"
+                short = self.SHORT[ext] % uid.encode("utf-8") if ext in self.SHORT else b"p"
+                steps.append(("shorter", short, "text/calendar" if ext == ".ics" else "text/vcard" if ext == ".vcf" else "application/octet-stream"))
+                for what, body, ct in steps:
+                    try:
+                        if what == "retry-delete":
+                            st.delete_one(vname)
+                        else:
+                            st.import_one(vname, ct, [body])
+                    except Exception:  # noqa: BLE001 - not acknowledged, nothing claimed
+                        continue
+                    try:
+                        now = members()
+                    except Exception as e:  # noqa: BLE001
+                        self.v("C04.read-back-fails", "%s; then %s of %s: %s: %r" % (where, what, vname, type(e).__name__, e), after="probe", **sig)
+                        return
+                    got = now.get(vname)
+                    if what == "retry-delete":
+                        if got is not None:
+                            self.v("C04.acknowledged-after-recovery-not-applied", "%s; then delete of %s acknowledged, but it is still there" % (where, vname), probe=what, **sig)
+                    elif got is None or not same(got[1], body):
+                        self.v("C04.acknowledged-after-recovery-not-applied", "%s; then %s write of %s (%d bytes) acknowledged, read-back %s" % (
+                            where, what, vname, len(body), "absent" if got is None else "%d bytes that are not the upload" % len(got[1])), probe=what, **sig)
+                    for n, (e, d) in state["members"].items():
+                        if n != vname and (n not in now or now[n][1] != d):
+                            self.v("C04.other-member-altered", "%s; then %s of %s changed %s" % (where, what, vname, n), after="probe", **sig)
+            finally:
+                close_store(st)
+                del st
+        except Exception as e:  # noqa: BLE001
+            self.v("C04.store-does-not-open", "%s; probe: %r" % (where, e), after="probe", **sig)
+        finally:
+            FS.active = False
 
     def git_checks(self, work, where, sig):
         self.count("git.fsck")
@@ -682,15 +746,36 @@ class CrashHttpRun:
                 self.v("C04.read-back-fails", "%s: %r" % (where, e), **sig)
                 w3.shutdown()
                 break
-            w3.shutdown()
             self.nontrivial.add(("http", cfg["frontend"], plan["victim"]["kind"], ev[0] if ev else "?", k, torn is not None))
             self.judge(plan, pre_obs, post_obs, obs, where, sig)
+            if not self.violations and plan["victim"]["method"] in ("PUT", "DELETE"):
+                self.probe(w3, plan["victim"], where, sig)
+            w3.shutdown()
             if len(self.samples) < 1:
                 self.samples.append({"level": "http", "frontend": cfg["frontend"], "victim": {x: (y[:50] if isinstance(y, str) else y) for x, y in plan["victim"].items()}, "crash_at_event": k, "of": n_events, "event": ev[0] if ev else None})
             if self.violations:
                 plan = dict(plan, points=[(k, torn)])
                 break
         return self.result(plan, n_events)
+
+    def probe(self, w, victim, where, sig):
+        """The client retries the interrupted request after the restart; an acknowledged retry must
+        be visible (an acknowledged DELETE means 404, an acknowledged PUT means that body)."""
+        self.count("recovery_probes")
+        try:
+            r = self.send(w, victim)
+            if r is None or r.status not in (200, 201, 204):
+                return
+            g = w.req("GET", victim["path"])
+            if victim["method"] == "DELETE":
+                if g is not None and g.status == 200:
+                    self.v("C04.acknowledged-after-recovery-not-applied", "%s; the retried DELETE is answered %s, GET still %s" % (where, r.status, g.status), probe="retry-delete", **sig)
+            else:
+                body = victim["body"].encode("latin-1")
+                if g is None or g.status != 200 or not (g.body == body or icalparse.semantically_equal(body, g.body)):
+                    self.v("C04.acknowledged-after-recovery-not-applied", "%s; the retried PUT is answered %s, GET gives %s" % (where, r.status, g.status if g else None), probe="retry", **sig)
+        except Exception as e:  # noqa: BLE001
+            self.v("C04.read-back-fails", "%s; probe: %r" % (where, e), after="probe", **sig)
 
     def judge(self, plan, pre, post, obs, where, sig):
         vpath = plan["victim"]["path"]
